@@ -10,181 +10,188 @@ HERE = os.path.dirname(os.path.dirname(os.path.abspath(__file__)))
 
 CHECKS = {
     'C01': dict(
-        category='exploration', design_ref='DESIGN.md §3 C01',
-        technique='runtime monitor: strict RFC 8259 re-decoding + response-shape oracle over generated request texts',
-        text='Every generated request text (member-alphabet product, batches over 15 element kinds exhaustive to length '
-             '2/3, edited and random non-JSON texts, 1..20000-digit integers, nesting 1..64) is dispatched on the real '
-             'sync and async dispatcher under 4 batch-size limits; an independent strict JSON decoder and a structural '
-             'checker judge each return value. Exploration is the right level: the domain is infinite and the refuting '
-             'event (an escaping exception, a malformed document, disagreeing codes) is directly observable.',
-        note='trusted: vmon/strictjson.py, vmon/models/wire.py; probe methods return JSON-encodable values'),
+        category='exploration', design_ref='DESIGN.md §3 C01, §8',
+        technique='runtime monitor: independent strict RFC 8259 re-decoding + response-shape oracle over generated request texts; ambient contracts over the repository test-suite',
+        text='Request texts (full member-alphabet product of request objects, typed calls over 28 probe methods incl. suspending, '
+             'suspending-then-failing and coroutine-returning ones, 29 exception kinds incl. library and live-argument exceptions, '
+             'batches over 17 element kinds exhaustive to length 3 and sampled to 8, duplicate / double-duplicate ids, prefixes and '
+             'single-character edits of valid documents, random texts, 1..20000-digit integers, floats, nesting 1..64) are dispatched '
+             'on the real sync / async dispatchers under 4 batch-size limits and 3 extra flavours (plain functions on the async '
+             'dispatcher, inert middleware + handler tables); every return value is judged by a strict JSON decoder and a structural '
+             'checker that share no code with pjrpc. The repository test-suite additionally runs under icontract / wrapper contracts.',
+        note='trusted: vmon/strictjson.py, vmon/models/wire.py; probe methods return JSON-encodable values; lenient-parser tokens judged for totality only'),
     'C02': dict(
-        category='exploration', design_ref='DESIGN.md §3 C02',
+        category='exploration', design_ref='DESIGN.md §3 C02, §8',
         technique='runtime monitor: executable JSON-RPC server model + metamorphic batch=elements relation over dispatch()',
-        text='Single requests over all id typings and batches over 15 element kinds (exhaustive to length 2/3, sampled to 5; '
-             'duplicate ids at every pair, size limits at and around the length) are dispatched on both real dispatchers; '
-             'responses (count, order, ids with JSON type, result values) and the multiset of probe-method executions are '
-             'compared with an independent reference model, and every accepted batch is re-run element by element.',
-        note='trusted: vmon/models/server.py (pure-Python model), vmon/strictjson.py; probe methods log every execution'),
+        text='Singles over all id typings and batches over 17 element kinds (exhaustive to length 3, sampled to 6; duplicate ids at '
+             'every pair, two different duplicated ids, "1" next to 1, size limits at and around the length) on both dispatchers and '
+             'the extra flavours; responses (count, order, ids with JSON type, results) and the multiset of probe executions are '
+             'compared with a pure-Python reference model, and every accepted batch is re-run element by element.',
+        note='trusted: vmon/models/server.py, vmon/strictjson.py; explicit "id": null and max_batch_size=0 are judged for atomicity only'),
     'C03': dict(
-        category='exploration', design_ref='DESIGN.md §3 C03',
+        category='exploration', design_ref='DESIGN.md §3 C03, §8',
         technique='runtime monitor: failure-table reference model + leak-marker search on the raw response text',
-        text='Every failure kind (not JSON, invalid request/batch, unknown method, unbindable params, protocol errors over '
-             'codes incl. 0/huge, empty messages, every data shape incl. absent vs null, 11 exception types with marker '
-             'strings) is driven as call, notification and batch element on both dispatchers and compared with the failure '
-             'table; exception type names, marker strings and traceback text are searched in the raw response.',
-        note='trusted: vmon/models/server.py, vmon/strictjson.py; data/message of library-generated errors are not judged'),
+        text='Every failure kind (not JSON, invalid request / batch, unknown method, unbindable or schema-violating params, protocol '
+             'errors over 14 codes x 4 messages x 10 data shapes incl. absent vs null, 29 exception kinds with marker strings) is '
+             'driven as call, notification and batch element at every position on both dispatchers and the extra flavours and '
+             'compared with the failure table; exception type names, markers and traceback text are searched in the raw response.',
+        note='trusted: vmon/models/server.py; data / message of library-generated errors are not judged'),
     'C04': dict(
-        category='exploration', design_ref='DESIGN.md §3 C04',
+        category='exploration', design_ref='DESIGN.md §3 C04, §8',
         technique='runtime monitor: generated programs, Python twin call as binding oracle, context identity check',
-        text='All signatures of <= 3 (thorough 4) parameters over the five parameter kinds, defaults, context placement and '
-             'passing mode, def / async def / view method are generated as source, registered on the real dispatchers and '
-             'driven with all positional lists 0..5 and all named subsets (incl. an unknown name and the context name); a '
-             'twin function with the same signature called directly decides what must bind. Parameter names collide '
-             'textually with the context name and one function object is registered with and without a context on purpose.',
-        note='trusted: CPython call semantics (the twin), the admissibility rule in DESIGN.md §3 C04; known findings D4, D18'),
+        text='All signatures of <= 4 (thorough: + 2500 five-parameter) parameters over the five parameter kinds, defaults, context '
+             'placement and passing mode, as def / async def / plain-on-async / view instance-, class- and static-method, are generated '
+             'as source, registered on the real dispatchers and driven with all positional lists 0..5 and all named subsets (incl. an '
+             'unknown name and the context name); a twin with the same signature called directly decides what must bind. Names collide '
+             'textually with the context name, a view\'s context name equals a parameter name, one function object is registered with '
+             'and without a context, all generated functions share one __qualname__.',
+        note='trusted: CPython call semantics (the twin), the admissibility rule of DESIGN.md §3 C04; known findings D4, D18'),
     'C05': dict(
-        category='exploration', design_ref='DESIGN.md §3 C05',
+        category='exploration', design_ref='DESIGN.md §3 C05, §8',
         technique='runtime monitor: round-trip oracle (to_json -> text -> strict decode -> from_json -> to_json) with field-wise comparison',
-        text='Generated requests, responses, errors, batches and batch-level errors (nested/empty/edge JSON values, all id '
-             'typings, registered/unregistered codes incl. 0, empty messages, three base classes in both orders) are taken '
-             'through both encoders and back; wire-form exactness is judged on an independently decoded text, exception '
-             'classes with type identity; batch objects additionally through serialise/append/extend histories.',
-        note='trusted: vmon/strictjson.py; generator vmon/gen/values.py; -0.0 vs 0.0 not distinguished'),
+        text='Generated requests, responses, errors, batches and batch-level errors (nested / empty / edge JSON values, all id typings, '
+             'registered codes incl. a class with class-level data, unregistered codes incl. 0 and the reserved range, empty messages, '
+             'three base classes in both orders of use) go through both encoders and back; wire-form exactness is judged on an '
+             'independently decoded text, exception classes by type identity; batches also through serialise/append/extend histories.',
+        note='trusted: vmon/strictjson.py, vmon/gen/values.py; -0.0 vs 0.0 not distinguished'),
     'C06': dict(
-        category='exploration', design_ref='DESIGN.md §3 C06',
-        technique='runtime monitor: exhaustive member-alphabet product through from_json + list-model of append/extend histories',
-        text='The full 16^4 product of request objects, 16^3 error objects, 16^3x18 response objects, non-object inputs, all '
-             'batch arrays of <= 3 elements over 12 element shapes and all append/extend histories of <= 3 (sampled 4) '
-             'operations over 6 ids are executed; the exception type and the accepted/refused verdict are compared with '
-             'validity predicates, batch contents with a list model after every operation.',
+        category='exploration', design_ref='DESIGN.md §3 C06, §8',
+        technique='runtime monitor: exhaustive member-alphabet product through from_json + list-model of append/extend histories + icontract batch invariants',
+        text='The full 16^4 product of request objects, 16^3 error objects, 16^3x18 response objects, non-object inputs, all batch arrays of '
+             '<= 3 elements over 12 shapes plus 4/5-element double duplicates, batch-level error objects, and all append/extend histories '
+             'of <= 3 operations over 6 ids (4-5 sampled, mixed-type double duplicates) are executed; exception type and accepted/refused '
+             'verdict are compared with validity predicates, batch contents with a list model after every operation; one shard runs under '
+             'icontract invariants on the real batch classes.',
         note='trusted: validity predicates in vmon/monitors/c06.py; float ids and rejection of valid values are not judged'),
     'C07': dict(
-        category='exploration', design_ref='DESIGN.md §3 C07',
+        category='exploration', design_ref='DESIGN.md §3 C07, §8',
         technique='runtime monitor: loop-back client->dispatcher execution compared with direct twin invocation, wire-document oracle',
-        text='Call programs of 1..4 calls/notifications over probe methods (returning, raising typed / unregistered / arbitrary '
-             'errors, really suspending coroutines) are executed in all ten notations by the real sync and async clients whose '
-             'transport is the real sync / async dispatcher, under four id generators, strict on/off and two error base classes; '
-             'the single wire document, the value / exception reaching the caller, server-side executions and equality across '
-             'notations are judged.',
+        text='Call programs of 1..4 calls / notifications over the probe methods (incl. a parameter named id, suspending coroutines with '
+             'decreasing delays) run in all ten notations on the real sync / async clients whose transport is the real sync / async '
+             'dispatcher, under four id generators, strict on/off and two error base classes; the single wire document, the value / '
+             'exception reaching the caller, server-side executions and equality across notations are judged.',
         note='trusted: twin table in vmon/models/server.py, vmon/models/wire.py; known finding D7 (uuid id generator)'),
     'C08': dict(
-        category='fault_enumeration', design_ref='DESIGN.md §3 C08',
+        category='fault_enumeration', design_ref='DESIGN.md §3 C08, §8',
         technique='runtime monitor: scripted-transport fault enumeration judged by an id-matching reference model',
-        text='For batches of 1..4 calls (+notifications; ids from 1, from 0, strings incl. "") every permutation of the correct '
-             'response array x success/error mixes x {omit, duplicate, unasked id, retyped / boolean / fractional / null id}, '
-             'batch-level errors and garbage bodies are returned by a scripted transport to the real clients (strict on/off, '
-             'send and call, also re-sending the same request object); accept / IdentityError / DeserializationError, request '
-             'linking and call-order attribution of unique result tokens are compared with the model.',
-        note='trusted: vmon/models/client_match.py; null-id elements inside arrays and non-JSON bodies are not judged'),
+        text='For batches of 1..4 calls (+notifications; ids from 1, from 0, strings incl. "") every permutation of the correct response '
+             'array x success/error mixes x {omit, duplicate, unasked id, retyped / boolean / fractional / null id, extra null-id element}, '
+             'batch-level errors and garbage bodies are returned by a scripted transport to the real clients (strict on/off, send and '
+             'call, also re-sending the same request object); accept / IdentityError / DeserializationError, request linking, call-order '
+             'attribution of unique tokens and survival of null-id errors are compared with the model.',
+        note='trusted: vmon/models/client_match.py; non-JSON bodies and null-id elements combined with missing ids are not judged'),
     'C09': dict(
-        category='fault_enumeration', design_ref='DESIGN.md §3 C09',
+        category='fault_enumeration', design_ref='DESIGN.md §3 C09, §8',
         technique='runtime monitor: scripted per-attempt outcomes + recording sleep shims (virtual clock) vs retry/backoff reference model',
-        text='Sessions of 1..3 requests (single / batch / notification) on one real sync or async client are driven through a '
-             'transport scripted with every outcome sequence of length n+2 for n in 0..2 (3, 4 sampled) over 6 outcome kinds, '
-             'under a grid of backoff families/parameters (caps below the first delay, factor 1, non-zero and negative jitter, '
-             'attempts 0), 4 codes sets x 4 exception sets and 4 strategy sources; the interleaved send / sleep event sequence '
-             '(arguments to 1e-9, positions, which sleep function) and the object reaching the caller are compared with the model.',
+        text='Sessions of 1..3 requests (single / batch / notification) on one real sync or async client run through a transport scripted '
+             'with every outcome sequence of length n+2 for n in 0..2 (thorough 3; 3-4 sampled) over 6 outcome kinds, under a grid of '
+             'backoff families / parameters (caps below the first delay, factor 1, non-zero and negative jitter, attempts 0), 4 codes sets '
+             'x 4 exception sets and 4 strategy sources; the interleaved send / sleep event sequence (arguments to 1e-9, positions, which '
+             'sleep function) and the object reaching the caller are compared with the model.',
         note='trusted: vmon/models/retry.py; the names time/asyncio inside pjrpc.client.retry are rebound to recording shims'),
-    'C19': dict(
-        category='fault_enumeration', design_ref='DESIGN.md §3 C19',
-        technique='runtime monitor: tracer-event automaton over scripted attempt outcomes incl. real task cancellation',
-        text='Requests of each kind are sent with 0..3 recording tracers and retry strategies of 0..3 attempts through a transport '
-             'scripted over 11 per-attempt outcomes (incl. BaseException, CancelledError raised by the transport, and cancelling '
-             'the client task while the transport is suspended); an automaton checks begin/completion pairing per attempt, '
-             'configuration order, payload identity, trace-context identity and the exception reaching the caller.',
-        note='trusted: vmon/models/retry.py for which attempts happen; probe tracers do not raise'),
-    'C20': dict(
-        category='exploration', design_ref='DESIGN.md §3 C20',
-        technique='runtime monitor: model-based operation/call histories through the patched transport of the real mocker',
-        text='Histories of add / replace / remove / reset operations and single / batch calls (positional and named params, ids '
-             'incl. 0 and "") over 2 endpoints x 2 methods, passthrough on/off, sync and async transports are executed against '
-             'the real PjRpcMocker; after every call the reply text, refusal, passthrough invocation and mocker.calls are '
-             'compared with a rotating-list model. Short histories over a reduced alphabet are enumerated, longer ones sampled.',
-        note='trusted: the list model inside vmon/monitors/c20.py; notifications and invalid remove/replace are not generated'),
     'C10': dict(
-        category='exploration', design_ref='DESIGN.md §3 C10, §2.7',
+        category='exploration', design_ref='DESIGN.md §3 C10, §2.7, §8',
         technique='runtime monitor: controlled asyncio scheduler enumerating all interleavings (stateless DFS re-execution)',
-        text='Batches of 2..4 elements over 11 profiles (calls, notifications, plain methods; success, protocol error, arbitrary '
-             'exception; 0..2 suspension points in method, middleware or error handler) are dispatched by the real '
-             'AsyncDispatcher under a scheduler that parks every instrumented coroutine and resumes exactly one per step; all '
-             'schedules of every generated shape are executed and judged (request-order array, own ids/results, run-once, nothing '
-             'left in flight, sequential mode never overlapping).',
+        text='Batches of 2..4 (thorough 5) elements over 11 profiles (calls, notifications, plain methods; success, protocol error, arbitrary '
+             'exception; 0..2 suspension points in method, middleware or error handler), with coroutine and plain-callable middlewares, '
+             'are dispatched by the real AsyncDispatcher under a scheduler that parks every instrumented coroutine and resumes exactly '
+             'one per step; all schedules of every generated shape are executed and judged (request-order array, own ids / results, '
+             'run-once, nothing left in flight, sequential mode never overlapping and in request order).',
         note='trusted: vmon/sched.py; exhaustive over user-code suspension points of the generated shapes only'),
+    'C11': dict(
+        category='exploration', design_ref='DESIGN.md §3 C11, §8',
+        technique='runtime monitor: pairwise differential execution of the sync and async twins on identical inputs',
+        text='The request corpora of C01-C03 (x batch limits) and the middleware / handler configurations of C12 run on the sync dispatcher, '
+             'the async dispatcher with coroutines, with plain functions, with suspending middlewares and in sequential-batch mode; C09 retry '
+             'sessions with tracers, C19 scripted attempt outcomes incl. BaseException / CancelledError, C07 call programs x notations and '
+             'C08 scripted response documents run on the sync and the async client. Documents, code tuples, execution logs, event '
+             'sequences, wire documents, outcomes, tracer events and sleep arguments are compared pairwise; no model is involved.',
+        note='trusted: only the comparison code; a defect present in both twins is invisible here (other checks cover that)'),
     'C12': dict(
-        category='exploration', design_ref='DESIGN.md §3 C12',
+        category='exploration', design_ref='DESIGN.md §3 C12, §8',
         technique='runtime monitor: event log of instrumented middlewares/handlers vs straight-line model of the configuration',
-        text='All 85 stacks of 0..3 middlewares over four kinds x 8 error-handler tables x 20 request documents x {sync, async, '
-             'async with suspending middlewares} run on the real dispatchers; per-element enter/exit/handler event sequences '
-             '(with the objects handed over), executions and the response sent are compared with the model.',
+        text='All 156 stacks of 0..3 (thorough 4) middlewares over five kinds (pass-through, short-circuit, request-rewriting, response-'
+             'rewriting, answer-everything) x 8 error-handler tables x 24 request documents (incl. one-element and all-notification '
+             'batches, rejected documents) x {sync, async, async with suspending middlewares, async sequential-batch} run on the real '
+             'dispatchers; per-element enter/exit/handler event sequences (with the objects handed over), executions and the response '
+             'sent are compared with the model.',
         note='trusted: the model in vmon/monitors/c12.py + vmon/models/server.py; probes do not raise'),
-    'C15': dict(
-        category='exploration', design_ref='DESIGN.md §3 C15',
-        technique='runtime monitor: registration histories vs name model, probed with real requests (own-token targets)',
-        text='Histories of add / add(name=) / add_methods / view / merge / attach / dispatcher.add / dispatcher.view over '
-             'registries with prefixes None, "a", "a.b" (<= 3 operations enumerated over a reduced alphabet, <= 6 sampled, '
-             'crafted three-level and same-prefix merges and re-registrations) are executed on both dispatchers; every model '
-             'name, every name one edit away and every private / dunder / non-callable view member under every prefix in play '
-             'is requested and the reached target token (or -32601) compared with the model; the registry key set too.',
-        note='trusted: the name model inside vmon/monitors/c15.py; add_methods(Method) under a prefix is not judged'),
     'C13': dict(
-        category='exploration', design_ref='DESIGN.md §3 C13',
+        category='exploration', design_ref='DESIGN.md §3 C13, §8',
         technique='runtime monitor: fresh-vs-used dispatcher differential, weakref/gc leak detector, multi-thread run with sys.monitoring yield injection',
-        text='(1) histories of <= 6/12 corpus requests followed by each of 10 probes, answer and executions compared with a fresh '
-             'dispatcher; (2) N in {1,10,1000} dispatches with fresh contexts on function / positional-context / view methods '
-             'under three validators, then weak references to contexts, view instances and method-local objects must be dead and '
-             'gc object counts flat; (3) 2..16 threads on one dispatcher with GIL yields injected at statement starts of '
-             'dispatcher.py / validators, every response compared with the model answer and searched for foreign tokens.',
+        text='(1) histories of <= 6/12 corpus requests followed by each of 12 probes, compared with a fresh dispatcher; (2) N in {1,10,1000} '
+             'dispatches (succeeding, refused, failing) with fresh contexts on function / positional-context / view methods under three '
+             'validators, then weak references to contexts, view instances and method-local objects must be dead and gc counts flat; '
+             '(3) 1000 requests with pairwise distinct client-controlled strings: gc counts and the logging manager must not grow; '
+             '(4) 2..16 threads on one dispatcher with GIL yields injected at statement starts of dispatcher.py / validators, incl. cold '
+             'dispatchers with response-changing middlewares, every response compared with the model / a sequential twin.',
         note='trusted: vmon/models/server.py; held on the interleavings observed (counted in the evidence), not on all'),
     'C14': dict(
-        category='exploration', design_ref='DESIGN.md §3 C14',
+        category='exploration', design_ref='DESIGN.md §3 C14, §8',
         technique='runtime monitor: generated validated methods vs hand-written schema evaluator / annotation table',
-        text='Methods of 1..3 parameters with JSON-schema fragments (JsonSchemaValidator) or annotations incl. models, enums and a '
-             'model whose field validator raises (PydanticValidator, coercion on/off), with context and excluded parameters, as '
-             'function / coroutine / view method, are registered on the real dispatchers and called with conforming, coercible '
-             'and non-conforming values positionally and by name; executed-iff-conforming, -32602 with encodable data, run-never-'
-             'on-refusal, unchanged / converted arguments and non-settable excluded parameters are judged against an evaluator '
-             'written for exactly that alphabet. One function object is also registered without a context on purpose.',
+        text='Methods of 1..3 parameters with JSON-schema fragments (JsonSchemaValidator; required / additionalProperties stricter than the '
+             'signature) or annotations incl. models, enums, Annotated constraints and a model whose field validator raises '
+             '(PydanticValidator, coercion on/off), with context and excluded parameters, as function / coroutine / view method, are '
+             'called with conforming, coercible and non-conforming values positionally and by name; executed-iff-conforming, -32602 with '
+             'encodable data, unchanged / converted arguments and non-settable excluded parameters are judged against an evaluator '
+             'written for exactly that alphabet. One function object is also registered without a context.',
         note='trusted: frag_ok / schema_ok and the ANNOT table in vmon/monitors/c14.py (checked against pydantic 2.13 lax mode)'),
-    'C11': dict(
-        category='exploration', design_ref='DESIGN.md §3 C11',
-        technique='runtime monitor: pairwise differential execution of the sync and async twins on identical inputs',
-        text='The request corpora of C01-C03 (x batch limits) and the middleware / handler configurations of C12 run on the sync '
-             'dispatcher, the async dispatcher with coroutines and the async dispatcher with plain functions; C09 retry sessions '
-             'with tracers, C07 call programs x notations and C08 scripted response documents run on the sync and the async '
-             'client. Response documents, code tuples, execution logs, event sequences, wire documents, outcomes, tracer events '
-             'and sleep arguments are compared pairwise; no model is involved, so any one-sided edit of the duplicated code shows.',
-        note='trusted: only the comparison code; a defect present in both twins is invisible here (other checks cover that)'),
-    'C18': dict(
-        category='exploration', design_ref='DESIGN.md §3 C18',
-        technique='runtime monitor: framework test clients vs twin dispatcher, cross-integration differential',
-        text='HTTP POSTs over 19 media-type header forms (documented types with / without parameters, case variants, near misses, '
-             'unrelated, missing) x ~50 bodies from the C01-C03 corpus (incl. batches, notifications, garbage, non-UTF-8) x three '
-             'status-by-error functions x three path prefixes x root / added endpoint go through aiohttp (loop-back TestServer), '
-             'flask and werkzeug applications built by the integrations; status, recorded status-function argument, body '
-             'document, content type, empty-200, 415-and-no-execution and escaping exceptions are judged against a twin '
-             'dispatcher called directly, and the three replies to one request against each other.',
-        note='trusted: the twin dispatcher (itself judged by C01-C03); loop-back sockets must be available for the aiohttp part'),
+    'C15': dict(
+        category='exploration', design_ref='DESIGN.md §3 C15, §8',
+        technique='runtime monitor: registration histories vs name model, probed with real requests (own-token targets)',
+        text='Histories of add / add(name=) (plain and decorator-factory forms) / add_methods / view / merge / attach / dispatcher.add / '
+             'dispatcher.view over registries with prefixes None, "a", "a.b" (<= 3 operations enumerated over a reduced alphabet, <= 6 '
+             'sampled, crafted three-level, same-prefix and repeated-source merges, re-registrations) on both dispatchers; every model '
+             'name, every name one edit away and every private / dunder / non-callable member of views with instance, static, class '
+             'and inherited members under every prefix in play is requested and the reached target token compared with the model.',
+        note='trusted: the name model inside vmon/monitors/c15.py; add_methods(Method) under a prefix is not judged'),
     'C16': dict(
-        category='exploration', design_ref='DESIGN.md §3 C16',
+        category='exploration', design_ref='DESIGN.md §3 C16, §8',
         technique='runtime monitor: official meta-schema validation (out of process), $ref resolver, purity fingerprints, metamorphic isolation relation',
-        text='Generated method sets (annotated parameter / return types incl. models and enums, docstrings, annotation '
-             'combinations incl. a shared errors list and component prefixes on some methods only, view methods, the same name on '
-             'two endpoints) x five extractor stacks x endpoint prefixes are turned into OpenAPI 3.1.0 / 3.0.3 and OpenRPC 1.3.2 '
-             'documents 1..3 times; exceptions, encodability, completeness, repeat-identity, fingerprints of metadata / user '
-             'objects, "entry alone == entry together in any order", "a specification object reused for another registry == a '
+        text='Generated method sets (annotated parameter / return types incl. models and enums, docstrings, annotation combinations incl. a '
+             'shared errors list, status-mapped errors and component prefixes on some methods only, view methods, one name on two endpoints) '
+             'x five extractor stacks x endpoint prefixes become OpenAPI 3.1.0 / 3.0.3 and OpenRPC 1.3.2 documents 1..3 times, with a '
+             'bystander specification built in between; exceptions, encodability, completeness, repeat-identity, fingerprints of metadata / '
+             'user objects, "entry alone == entry together in any order (component names included)", "a reused specification object == a '
              'fresh one" are judged in process, meta-schema validity and dangling $refs by a jsonschema-4 worker.',
         note='trusted: vendored meta-schemas (hash-pinned copies of tests/server/resources), jsonschema 4.26 of python3-vt; known findings D13d, D22, D23'),
     'C17': dict(
-        category='exploration', design_ref='DESIGN.md §3 C17',
+        category='exploration', design_ref='DESIGN.md §3 C17, §8',
         technique='runtime monitor: documented parameter sets vs the dispatcher as acceptance reference over all params-object subsets',
-        text='All signatures of <= 3 (thorough 4) positional-or-keyword / keyword-only parameters x defaults x context parameter at '
-             'each position (by name / positional) x exclusion predicate x function / view method are documented by OpenAPI 3.1 and '
-             'OpenRPC (pydantic extractor); the documented names / required lists are compared with the signature, and params '
-             'objects over all subsets of (documented + undocumented + context + excluded names) are dispatched on the real '
-             'dispatcher to compare acceptance with the document\'s prediction. The same function is also registered without a '
-             'context designation and both registrations are probed alternately.',
+        text='All signatures of <= 3 (+ sampled 4; thorough all 4 + sampled 5) positional-or-keyword / keyword-only parameters x defaults x '
+             'context parameter at each position (by name / positional) x exclusion predicate (by name, by default, by annotation) x '
+             'function / view method are documented by OpenAPI 3.1 and OpenRPC (pydantic extractor); documented names / required lists are '
+             'compared with the signature, and params objects over all subsets of (documented + undocumented + context + excluded names) '
+             'are dispatched on the real dispatcher to compare acceptance with the document\'s prediction; the same function is also '
+             'registered without a context and both registrations are probed alternately.',
         note='trusted: the real dispatcher with the base validator as acceptance reference (itself judged by C04)'),
+    'C18': dict(
+        category='exploration', design_ref='DESIGN.md §3 C18, §8',
+        technique='runtime monitor: framework test clients vs twin dispatcher, cross-integration differential',
+        text='HTTP POSTs over 19 media-type header forms (documented types with / without parameters, case variants, near misses, unrelated, '
+             'missing) plus declared non-UTF-8 charsets, x ~55 bodies from the C01-C03 corpus (batches, notifications, garbage, undecodable) '
+             'x three status-by-error functions x three path prefixes x root / added / sub-application endpoints that answer with their own '
+             'name go through aiohttp (loop-back TestServer), flask and werkzeug applications built by the integrations; status, recorded '
+             'status-function argument, body document, content type, empty-200, 415-and-no-execution and escaping exceptions are judged '
+             'against a twin dispatcher called directly, and the three replies to one request against each other.',
+        note='trusted: the twin dispatcher (itself judged by C01-C03); loop-back sockets must be available for the aiohttp part'),
+    'C19': dict(
+        category='fault_enumeration', design_ref='DESIGN.md §3 C19, §8',
+        technique='runtime monitor: tracer-event automaton over scripted attempt outcomes incl. real task cancellation and concurrent requests',
+        text='Requests of each kind are sent with 0..3 recording tracers and retry strategies of 0..3 attempts through a transport scripted '
+             'over 11 per-attempt outcomes (incl. BaseException, CancelledError raised by the transport, cancelling the client task while '
+             'the transport is suspended), also from inside an except block, and 2..3 requests are kept in flight through one async client '
+             'and released in every order; an automaton checks begin/completion pairing per attempt, configuration order, payload identity, '
+             'trace-context identity and the exception reaching the caller.',
+        note='trusted: vmon/models/retry.py for which attempts happen; probe tracers do not raise'),
+    'C20': dict(
+        category='exploration', design_ref='DESIGN.md §3 C20, §8',
+        technique='runtime monitor: model-based operation/call histories through the patched transport of the real mocker',
+        text='Histories of add / replace / remove / reset operations and single / batch calls (positional and named params, ids incl. 0 and '
+             '"") over 2 endpoints x 2 methods, passthrough on/off, sync and async transports are executed against the real PjRpcMocker; '
+             'after every call the reply text, refusal, passthrough invocation and mocker.calls are compared with a rotating-list model. '
+             'Histories of <= 3 operations over a reduced alphabet are enumerated, longer ones sampled.',
+        note='trusted: the list model inside vmon/monitors/c20.py; notifications and invalid remove/replace are not generated'),
 }
 
 NOT_BUILT_REASON = 'no check registered yet in this round (monitor under construction, see DESIGN.md §3)'
